@@ -257,6 +257,10 @@ class TensorDomain(SpecInterp):
             return getattr(math, name.split(".")[1])(args[0])
         if name in ("operator.add", "operator.sub", "operator.mul", "operator.truediv"):
             return self.abs_binop({"add": ast.Add(), "sub": ast.Sub(), "mul": ast.Mult(), "truediv": ast.Div()}[name.split(".")[1]], args[0], args[1])
+        # configuration / dtype / device queries take no tensor: their result is a plain opaque constant in every domain
+        if name in ("torch.get_default_dtype", "torch.get_default_device", "torch.finfo", "torch.iinfo", "torch.device", "torch.is_grad_enabled", "torch.get_num_threads") \
+                and not any(isinstance(a, AV) for a in args):
+            return ExtCall(name, args, kw)
         raise Unsupported(f"external call {name} in domain {self.NAME}")
 
     def ext_isinstance(self, v, extname) -> bool:
